@@ -27,6 +27,7 @@ def run(ctx, rep):
         check_src(crate, rep, cfg)
         check_parser_source(crate, rep, cfg)
         check_span_expand(crate, rep, cfg)
+        check_slice_span(crate, rep, cfg)
         check_chunkname(crate, rep, cfg)
         check_setsrc(crate, rep, cfg)
         check_note(crate, rep, cfg)
@@ -255,6 +256,31 @@ def check_span_expand(crate, rep, cfg):
                 ok, why = False, "range is not rebuilt as self.range.start..other.range.end"
     rep.add("C12.POS", "C12.POS:Span::expand:end-triple-from-one-span", ok, b.where(0), "Span::expand copies end_line, end_col and range.end from the span it expands to, and keeps its "
             "own start" + ("" if ok else " — VIOLATED: " + why))
+
+
+def check_slice_span(crate, rep, cfg):
+    """C12.SPAN — the value a slice produces is blamed on the sliced value's own span: omitted slice parts are emitted without a span
+    (C07.SPAN reviews that), so a range reaching to the step / end operand can end on a span-less instruction and the next error on that
+    value hits `expect("to have a span for error")` instead of producing a report."""
+    from props.c03 import vm_arm
+    vm = crate.one("vm::interpreter::VirtualMachine::<'tera>::interpret")
+    tr = Tracer(vm)
+    reg = vm_arm(vm, crate, "Slice")
+    sl = [(bb, t) for bb, t in vm.calls(sorted(reg)) if callee_def(t).endswith("value::Value::slice")]
+    ok = len(sl) == 1
+    why = "slice call not found"
+    if ok:
+        base = {l.detail[2] for l in tr.operand(sl[0][1]["args"][0]) if l.kind == "call" and l.detail[0].endswith("stack::Stack::pop")}
+        res_pushes = [(bb, t) for bb, t in vm.calls(sorted(reg)) if callee_def(t).endswith("stack::Stack::push")
+                      and any(l.kind == "call" and l.detail[2] == sl[0][0] for l in tr.operand(t["args"][1]))]
+        ok = bool(res_pushes) and len(base) == 1
+        why = "result push / base pop not found"
+        for bb, t in res_pushes:
+            spl = [l for l in tr.operand(t["args"][2]) if l.kind != "cycle"]
+            if not (spl and all(l.kind == "call" and l.detail[2] in base and ".1" in l.projs for l in spl)):
+                ok, why = False, "the result is pushed with %s" % sorted(leaf_str(l) for l in spl)[:2]
+    rep.add("C12.SPAN", "C12.SPAN:Slice:result-carries-the-base-span", ok, vm.where(sl[0][0]) if sl else vm.where(0), "the Slice arm pushes its result with the span popped together with "
+            "the sliced value" + ("" if ok else " — VIOLATED: " + why))
 
 
 def rrec_field(tr, op):
